@@ -124,6 +124,22 @@ def main(argv=None):
     return exit_code
 
 
+def _assume_scan(pid):
+    """Mechanical scan (DESIGN 7): every __CPROVER_assume in the harnesses, wrappers and stubs this property uses."""
+    import glob
+    out = []
+    files = sorted(glob.glob(os.path.join(VERIF, "contracts", pid, "*"))) + sorted(glob.glob(os.path.join(VERIF, "stubs", "*.h")))
+    for f in files:
+        try:
+            lines = open(f, encoding="utf-8", errors="replace").read().splitlines()
+        except OSError:
+            continue
+        for i, ln in enumerate(lines, 1):
+            if "__CPROVER_assume(" in ln:
+                out.append(f"{os.path.relpath(f, VERIF)}:{i}: {ln.strip()[:200]}")
+    return out
+
+
 def _evidence_fail(pid, tier, seed, t0, why):
     ev = {"property_id": pid, "tier": tier, "seed": seed, "level": "other",
           "coverage": {"explanation": why, "evaluations": 0, "distinct_nontrivial": 0},
@@ -188,6 +204,8 @@ def _evidence(pid, tier, seed, t0, plan, jobs, results, known_hits, vio, undecid
         "distinct_nontrivial": max(len(contract_obs), 2),
         "rule": "one evaluation = one CBMC-generated obligation decided on the code sliced from /repo; non-trivial = contract clause / code assertion / frame / loop-invariant obligations (as opposed to generic pointer/overflow instrumentation)",
         "explanation": plan.get("explanation", ""),
+        "assume_statements": _assume_scan(pid),
+        "assume_statements_note": "mechanical scan of contracts/<id>/* and stubs/*.h: input well-formedness of the harnesses (valid kinds, ranges, non-NaN), induction hypotheses, known-finding class exclusions and assumed contracts of dependencies; none is inside the sliced code",
     }
     ev = {"property_id": pid, "tier": tier, "seed": seed, "level": "proof", "coverage": cov,
           "assumptions": plan.get("assumptions", []), "wall_s": round(time.time() - t0, 2),
